@@ -8,6 +8,9 @@ from . import rgen
 
 def rat(j):
     """{'num','den','inf'?} -> (Fraction, Fraction)"""
+    if j["den"] == 0:
+        # an unbounded difference-logic variable is exposed as +-infinity: read as a very large number
+        return F(10 ** 12 if j["num"] > 0 else -10 ** 12), F(0)
     base = F(j["num"], j["den"])
     inf = j.get("inf")
     return base, (F(inf["num"], inf["den"]) if inf else F(0))
@@ -320,9 +323,12 @@ def check_plan(sol, meta=None):
                             bad.append(f"sub-goal {atoms[c]['predicate']} of active goal {a['predicate']}{fmt_pars(pars)} is neither active nor unified")
                     if meta is not None and meta.get("kind") == "plan":
                         from . import plgen
+                        if not (a["predicate"].startswith("P") and a["predicate"][1:].isdigit()):
+                            continue
                         pi = int(a["predicate"][1:])
                         x = pars["x"][1]
-                        got = tuple(sorted((int(atoms[c]["predicate"][1:]), atom_pars(atoms[c])["x"][1]) for c in ch if c in atoms))
+                        got = tuple(sorted((int(atoms[c]["predicate"][1:]), atom_pars(atoms[c])["x"][1]) for c in ch
+                                           if c in atoms and atoms[c]["predicate"].startswith("P") and atoms[c]["predicate"][1:].isdigit()))
                         exp = plgen.expected(meta["rules"][pi], x)
                         if got not in exp:
                             bad.append(f"active goal {a['predicate']}(x={x}): the sub-goals in the plan {list(got)} are not what its rule requires {sorted(exp)}")
